@@ -133,6 +133,23 @@ def intake_caps(repo, tier, seed):
     return out
 
 
+def soundness_is_c01(repo, tier, seed):
+    """Clause 1 needs every code-feasible point to be physically feasible: C01's ledger lemmas, re-run under this
+    property.  The obligations that are C01's OPEN known findings (F1, F2) are left to C01 - everything else, including
+    the per-month meat cap, must hold here too."""
+    from contracts import C01
+    from pyvc.driver import load_known
+    open_findings = {k["obligation"] for k in load_known()[0] if k["property"] == "C01"}
+    out = []
+    for o in C01.ledger_obligations(repo, tier, seed):
+        if o["name"] in open_findings or "/feed_biofuel[" in o["name"]:
+            continue
+        o = dict(o)
+        o["name"] = o["name"].replace("C01/", "C02/soundness/")
+        out.append(o)
+    return out
+
+
 def feed_round_shape(repo, tier, seed):
     """Feed-maximising round: within the demand ceilings and never rising from one month to the next - C01's
     feed / biofuel template lemmas, re-run under this property (they are part of what this round maximises over)."""
@@ -310,7 +327,7 @@ def solver_call(repo, tier, seed):
 
 
 CONTRACTS = []
-EXTRA = [completeness, intake_caps, feed_round_shape, model_is_the_templates, pinned_consumption, solver_call]
+EXTRA = [completeness, soundness_is_c01, intake_caps, feed_round_shape, model_is_the_templates, pinned_consumption, solver_call]
 TRUSTED = [
     "CBC's reported optimum is the optimum of the model it was given, within gapRel (NOT decided: no contract within reach expresses a solver's correctness)",
     "PuLP operator semantics; floats as reals",
